@@ -56,7 +56,16 @@ def sig(variant, a, dt, lo, hi, se=True):
     from eqsig import im
     mk = (lambda: used_object(a, dt)) if HISTORY["on"] else (lambda: eqsig.AccSignal(a, dt))
     try:
-        if variant == "vals":
+        if variant == "vals" and not se and HISTORY["on"]:
+            import warnings
+            with warnings.catch_warnings():
+                warnings.simplefilter("ignore")
+                r = im.calc_significant_duration(a, dt, start=lo, end=hi)          # deprecated alias of the array variant
+        elif variant == "vals" and (lo, hi) == (0.05, 0.95):
+            r = im.calc_sig_dur_vals(a, dt, se=se)                                  # default fractions 5 % - 95 %
+        elif variant == "arias" and (lo, hi) == (0.05, 0.95) and not HISTORY["on"]:
+            r = im.calc_sig_dur(eqsig.AccSignal(a, dt), se=se)
+        elif variant == "vals":
             r = im.calc_sig_dur_vals(a, dt, start=lo, end=hi, se=se)
         elif variant == "arias":
             r = im.calc_sig_dur(mk(), start=lo, end=hi, se=se)
@@ -70,9 +79,12 @@ def sig(variant, a, dt, lo, hi, se=True):
 def brac(a, dt, thr):
     import eqsig
     from eqsig import im
+    import warnings
     s = eqsig.AccSignal(a, dt)
     t0, t1 = im.calc_brac_dur(s, thr, se=True)
-    d = im.calc_brac_dur(s, thr)
+    with warnings.catch_warnings():
+        warnings.simplefilter("ignore")
+        d = im.calc_brac_dur(s, thr) if len(a) % 2 else im.calc_bracketed_duration(s, thr)      # deprecated alias
     if t0 is None:
         return 1, 0.0, 0.0, float(d)
     return 0, float(t0), float(t1), float(d)
